@@ -2,7 +2,9 @@
    Statements only.  PARTIAL: CPython's finalisation on the last decref, cyclic GC timing, atexit
    ordering and daemon-thread teardown are modelled (Model/Refs.v), not verified; reference retention
    is decided by weakref probes on real executors (monitor) and, for the retry job list, by the
-   machine of C05/C06. *)
+   machine of C05/C06.  The worker-loop protocol itself (Model/Refs.v) is in lockstep with the four real loops
+   (harness/p_c12w.py: every deref with its result, the state of the temporary reference at each wait, every
+   set / wait / wake-up / clear of the loop's event, the finalisation of the executor). *)
 From Coq Require Import List Bool Arith.
 From ME Require Import Base.Machine Model.Refs.
 Import ListNotations.
@@ -15,17 +17,25 @@ Definition reachable := reachable_from step init.
 Theorem c12_worker_woken_after_drop_partial : forall s, reachable s -> collected s = true -> wp s <> WBlocked false.
 Proof. exact worker_not_asleep_after_collection. Qed.
 (* ... and its next deref ends the loop *)
-Theorem c12_deref_after_collection_exits_partial : forall s s', collected s = true -> wp s = WDeref -> step s WorkerDeref = Some s' -> wp s' = WExit.
+Theorem c12_deref_after_collection_exits_partial : forall s s' al, collected s = true -> wp s = WDeref -> step s (WorkerDeref al) = Some s' -> wp s' = WExit /\ al = false.
 Proof. exact deref_after_collection_exits. Qed.
+(* what the loop's `executor_ref()` returns is determined by finalisation (this observation is checked against the real
+   deref in lockstep), and a timed wait that expires leads through clear() to the next deref *)
+Theorem c12_deref_observation_partial : forall s s' al, step s (WorkerDeref al) = Some s' -> al = negb (collected s).
+Proof. exact deref_observation. Qed.
+Theorem c12_timeout_leads_to_deref_partial : forall s s', step s WorkerTimeout = Some s' -> wp s' = WClear.
+Proof. exact timeout_leads_to_deref. Qed.
 (* the executor is not finalised while the user or a running iteration still refers to it *)
 Theorem c12_alive_while_referenced_partial : forall s, reachable s -> collected s = false -> userref s = true \/ wstrong s = true.
 Proof. exact not_collected_while_referenced. Qed.
 
 Example c12_nonvacuous : exists s, reachable s /\ collected s = true /\ wp s = WExit.
 Proof.
-  eexists. split; [exists [WorkerDeref; UserDrop; WorkerRelease; WorkerWait; WorkerClear; WorkerDeref]; reflexivity|split; reflexivity].
+  eexists. split; [exists [WorkerDeref true; UserDrop; WorkerRelease; WorkerWait true; WorkerClear; WorkerDeref false]; reflexivity|split; reflexivity].
 Qed.
 
 Print Assumptions c12_worker_woken_after_drop_partial.
 Print Assumptions c12_alive_while_referenced_partial.
 Print Assumptions c12_deref_after_collection_exits_partial.
+Print Assumptions c12_deref_observation_partial.
+Print Assumptions c12_timeout_leads_to_deref_partial.
